@@ -7,9 +7,11 @@ import lib
 from props import fsobs
 
 ID = 'C12'
-GEN_FILES = ['T_files_p8', 'T_files_build', 'T_p8scii']
+GEN_FILES = ['T_files_p8', 'T_files_build', 'T_p8scii',
+             # source pins of the hand-modelled modules (gen/kernels_pins.py)
+             'T_pins_build', 'T_pins_p8']
 COQ_PROPERTY = 'theories/Properties/C12.vo'
-COQ_EXTRA = []
+COQ_EXTRA = ['theories/Proofs/BuildPins.vo', 'theories/Proofs/P8Pins.vo']
 MODEL = ('ExC12', 'c12_main.ml')
 MONITOR = ('MonC12', 'c12_mon_main.ml')
 RULE = ('three streams. paths: every string built from <= 5 components of {a, ab, ., .., ""} with/without leading and '
